@@ -4,6 +4,8 @@
 //verif:assume delete / rename universe: repositories r and r2 (r2's name extends r's); in r up to two bundles (one with two index files, one empty with none) each present or absent, up to two labels; both store behaviours for deleting a missing key (error as GCS, nil as the local file system)
 //verif:cover VerifC09CreateRace second-creator-ran-between
 //verif:cover VerifC09DeleteRepo empty-bundle labels-removed
+//verif:cover VerifC09DeleteCrash died-mid-delete retry-succeeds
+//verif:cover VerifC09RenameRace creator-won-the-race rename-won-the-race
 //verif:cover VerifC09Rename bundles-moved labels-moved checksummed-store write-fault
 //verif:cover VerifC09DeleteEntries list-rewritten list-untouched
 package core
@@ -144,6 +146,42 @@ func VerifC09DeleteRepo() {
 	vAssertSame(beforeV, f.vmeta, []string{"labels/r2/"}, "other-repository-labels-untouched")
 }
 
+// VerifC09DeleteCrash: the process running DeleteRepo dies at an arbitrary mutating store call (which did or did
+// not land); the deletion is then run again. Whenever the second run reports success, nothing of r is left, and
+// nothing of r2 was touched by either run.
+func VerifC09DeleteCrash() {
+	vBudget(6000000)
+	vUnwind(20000)
+	f := vRepoUniverse(false)
+	stores := vCtxStoresAll(f.meta, f.vmeta, newVStore("blob"))
+	beforeM, beforeV := vSnapshot(f.meta), vSnapshot(f.vmeta)
+	cr := &vCrasher{stores: []*vStore{f.meta, f.vmeta}}
+	cr.crashAt = vInt("crashAt", 1, 12)
+	cr.landed = vChoose("landed", 2) == 1
+	cr.install()
+	err1 := DeleteRepo("r", stores)
+	if !cr.crashed {
+		vAssert(err1 == nil, "delete-repo-succeeds")
+		return
+	}
+	vCover("died-mid-delete")
+	cr.revive()
+	if vKeysUnder(f.meta, "repos/r/") == 0 {
+		// the first run got as far as the repository descriptor: it was the last thing to go
+		vAssert(vKeysUnder(f.meta, "bundles/r/") == 0 && vKeysUnder(f.vmeta, "labels/r/") == 0, "descriptor-is-the-last-object-removed")
+		return
+	}
+	err2 := DeleteRepo("r", stores)
+	if err2 == nil {
+		vCover("retry-succeeds")
+		vAssert(vKeysUnder(f.meta, "repos/r/") == 0, "repo-descriptor-removed")
+		vAssert(vKeysUnder(f.meta, "bundles/r/") == 0, "retried-delete-leaves-no-bundle-objects")
+		vAssert(vKeysUnder(f.vmeta, "labels/r/") == 0, "retried-delete-leaves-no-labels")
+	}
+	vAssertSame(beforeM, f.meta, []string{"repos/r2/", "bundles/r2/"}, "other-repository-metadata-untouched")
+	vAssertSame(beforeV, f.vmeta, []string{"labels/r2/"}, "other-repository-labels-untouched")
+}
+
 // VerifC09Rename: renaming r to n moves every bundle (same ids, same file lists) and label, removes r,
 // leaves r2 alone; under a store read fault it returns an error without having removed r.
 func VerifC09Rename() {
@@ -231,6 +269,54 @@ func VerifC09Rename() {
 		vAssert(f.labels[l.Name] == l.BundleID, "label-points-at-the-same-bundle")
 		vCover("labels-moved")
 	}
+}
+
+// VerifC09RenameRace: a rename of r to n races a creator of n, under every interleaving of their metadata store
+// calls with at most two hand-overs. Exactly one of them gets the name; when the creator gets it, its new
+// repository holds nothing of r and r is intact; when the rename gets it, r has moved as a whole.
+func VerifC09RenameRace() {
+	vBudget(300000000)
+	vUnwind(20000)
+	f := vRepoUniverse(false)
+	stores := vCtxStoresAll(f.meta, f.vmeta, newVStore("blob"))
+	beforeM, beforeV := vSnapshot(f.meta), vSnapshot(f.vmeta)
+	nBundleKeys := vKeysUnder(f.meta, "bundles/r/")
+	switched := 0
+	f.meta.sched = func() {
+		if switched < 2 && vChoose("switch", 2) == 1 {
+			switched++
+			vYield()
+		}
+	}
+	var errRename, errCreate error
+	vTasks(
+		func() { errRename = RenameRepo("r", "n", stores) },
+		func() {
+			errCreate = CreateRepo(model.RepoDescriptor{Name: "n", Description: "fresh", Contributor: model.Contributor{Name: "n", Email: "e@x.io"}}, stores)
+		},
+	)
+	f.meta.sched = nil
+	vAssert((errRename == nil) != (errCreate == nil), "exactly-one-of-rename-and-create-gets-the-name")
+	var rd model.RepoDescriptor
+	vAssert(yaml.Unmarshal(f.meta.data[model.GetArchivePathToRepoDescriptor("n")], &rd) == nil, "descriptor-readable")
+	if errCreate == nil {
+		if switched > 0 {
+			vCover("creator-won-the-race")
+		}
+		vAssert(rd.Description == "fresh", "descriptor-is-the-winners")
+		vAssert(vKeysUnder(f.meta, "bundles/n/") == 0, "losing-rename-leaves-nothing-in-the-creators-repository")
+		vAssert(vKeysUnder(f.vmeta, "labels/n/") == 0, "losing-rename-leaves-no-label-in-the-creators-repository")
+		vAssertSame(beforeM, f.meta, []string{"repos/r/", "bundles/r/", "repos/r2/", "bundles/r2/"}, "failed-rename-keeps-the-original-repository")
+		vAssertSame(beforeV, f.vmeta, []string{"labels/r/", "labels/r2/"}, "failed-rename-keeps-the-original-labels")
+		return
+	}
+	vCover("rename-won-the-race")
+	vAssert(rd.Description != "fresh", "descriptor-is-the-winners")
+	vAssert(vKeysUnder(f.meta, "repos/r/") == 0 && vKeysUnder(f.meta, "bundles/r/") == 0 && vKeysUnder(f.vmeta, "labels/r/") == 0, "old-repository-removed")
+	vAssert(vKeysUnder(f.meta, "bundles/n/") == nBundleKeys, "every-bundle-object-moved")
+	vAssert(vKeysUnder(f.vmeta, "labels/n/") == len(f.labels), "every-label-moved")
+	vAssertSame(beforeM, f.meta, []string{"repos/r2/", "bundles/r2/"}, "other-repository-metadata-untouched")
+	vAssertSame(beforeV, f.vmeta, []string{"labels/r2/"}, "other-repository-labels-untouched")
 }
 
 // VerifC09DeleteEntries: deleting files from a repository removes exactly those paths from every bundle's lists.
